@@ -4,6 +4,7 @@ import (
 	"bytes"
 	"fmt"
 	"io"
+	"strings"
 
 	"github.com/bronlabs/bron-crypto/pkg/proofs/sigma"
 	"github.com/bronlabs/bron-crypto/pkg/proofs/sigma/compose/sigand"
@@ -140,4 +141,116 @@ func orCase[X sigma.Statement, W sigma.Witness, A sigma.Statement, S sigma.State
 		}
 	}
 	return out
+}
+
+// ---------------------------------------------------------------------------------------------
+// binary compositions of two DIFFERENT protocols (sigor.CartesianCompose / sigand.CartesianCompose): the branches
+// have different statement types and, for the pairs selected in the plan, different challenge lengths
+
+func cartName(n0, n1, comp string) string {
+	p0, p1 := strings.SplitN(n0, "/", 2), strings.SplitN(n1, "/", 2)
+	return p0[0] + "+" + p1[0] + "/" + p0[1] + "/" + comp
+}
+
+// cartOrCase: OR of c0 and c1 where only branch `side` has a valid witness (the other slot carries the witness of an
+// unrelated instance, as the API requires both to be non-nil).
+func cartOrCase[X0, X1 sigma.Statement, W0, W1 sigma.Witness, A0, A1 sigma.Statement, S0, S1 sigma.State, Z0, Z1 sigma.Response](
+	c0 *sigCase[X0, W0, A0, S0, Z0], c1 *sigCase[X1, W1, A1, S1, Z1], side int,
+) *sigCase[*sigor.StatementCartesian[X0, X1], *sigor.WitnessCartesian[W0, W1], *sigor.CommitmentCartesian[A0, A1], *sigor.StateCartesian[S0, S1, Z0, Z1], *sigor.ResponseCartesian[Z0, Z1]] {
+	type (
+		XX = *sigor.StatementCartesian[X0, X1]
+		WW = *sigor.WitnessCartesian[W0, W1]
+		AA = *sigor.CommitmentCartesian[A0, A1]
+		SS = *sigor.StateCartesian[S0, S1, Z0, Z1]
+		ZZ = *sigor.ResponseCartesian[Z0, Z1]
+	)
+	out := &sigCase[XX, WW, AA, SS, ZZ]{name: cartName(c0.name, c1.name, []string{"corL", "corR"}[side]), heavy: c0.heavy || c1.heavy, unitMS: c0.unitMS + c1.unitMS}
+	out.mk = func(rng io.Reader) sigma.Protocol[XX, WW, AA, SS, ZZ] {
+		return must(sigor.CartesianCompose(c0.mk(rng), c1.mk(rng), rng))
+	}
+	out.inst = func(i int) (XX, WW) {
+		x0, w0 := c0.inst(2 * i)
+		x1, w1 := c1.inst(2*i + 1)
+		if side == 0 {
+			_, w1 = c1.inst(2*i + 51)
+		} else {
+			_, w0 = c0.inst(2*i + 50)
+		}
+		return must(sigor.CartesianComposeStatements(x0, x1)), must(sigor.CartesianComposeWitnesses(w0, w1))
+	}
+	out.alts = func() []altStmt[XX] {
+		base, _ := out.inst(0)
+		var alts []altStmt[XX]
+		o0, _ := c0.inst(100)
+		o1, _ := c1.inst(101)
+		alts = append(alts, altStmt[XX]{"branch0:=other-instance", must(sigor.CartesianComposeStatements(o0, base.X1))})
+		alts = append(alts, altStmt[XX]{"branch1:=other-instance", must(sigor.CartesianComposeStatements(base.X0, o1))})
+		for _, a := range c0.alts() {
+			alts = append(alts, altStmt[XX]{"branch0." + a.name, must(sigor.CartesianComposeStatements(a.x, base.X1))})
+		}
+		for _, a := range c1.alts() {
+			alts = append(alts, altStmt[XX]{"branch1." + a.name, must(sigor.CartesianComposeStatements(base.X0, a.x))})
+		}
+		return alts
+	}
+	return out
+}
+
+// cartAndCase: AND of c0 and c1.
+func cartAndCase[X0, X1 sigma.Statement, W0, W1 sigma.Witness, A0, A1 sigma.Statement, S0, S1 sigma.State, Z0, Z1 sigma.Response](
+	c0 *sigCase[X0, W0, A0, S0, Z0], c1 *sigCase[X1, W1, A1, S1, Z1],
+) *sigCase[*sigand.StatementCartesian[X0, X1], *sigand.WitnessCartesian[W0, W1], *sigand.CommitmentCartesian[A0, A1], *sigand.StateCartesian[S0, S1], *sigand.ResponseCartesian[Z0, Z1]] {
+	type (
+		XX = *sigand.StatementCartesian[X0, X1]
+		WW = *sigand.WitnessCartesian[W0, W1]
+		AA = *sigand.CommitmentCartesian[A0, A1]
+		SS = *sigand.StateCartesian[S0, S1]
+		ZZ = *sigand.ResponseCartesian[Z0, Z1]
+	)
+	out := &sigCase[XX, WW, AA, SS, ZZ]{name: cartName(c0.name, c1.name, "cand"), heavy: c0.heavy || c1.heavy, unitMS: c0.unitMS + c1.unitMS}
+	out.mk = func(rng io.Reader) sigma.Protocol[XX, WW, AA, SS, ZZ] {
+		return must(sigand.CartesianCompose(c0.mk(rng), c1.mk(rng)))
+	}
+	out.inst = func(i int) (XX, WW) {
+		x0, w0 := c0.inst(2 * i)
+		x1, w1 := c1.inst(2*i + 1)
+		return must(sigand.CartesianComposeStatements(x0, x1)), must(sigand.CartesianComposeWitnesses(w0, w1))
+	}
+	out.alts = func() []altStmt[XX] {
+		base, _ := out.inst(0)
+		var alts []altStmt[XX]
+		o0, _ := c0.inst(100)
+		o1, _ := c1.inst(101)
+		alts = append(alts, altStmt[XX]{"branch0:=other-instance", must(sigand.CartesianComposeStatements(o0, base.X1))})
+		alts = append(alts, altStmt[XX]{"branch1:=other-instance", must(sigand.CartesianComposeStatements(base.X0, o1))})
+		for _, a := range c0.alts() {
+			alts = append(alts, altStmt[XX]{"branch0." + a.name, must(sigand.CartesianComposeStatements(a.x, base.X1))})
+		}
+		for _, a := range c1.alts() {
+			alts = append(alts, altStmt[XX]{"branch1." + a.name, must(sigand.CartesianComposeStatements(base.X0, a.x))})
+		}
+		return alts
+	}
+	return out
+}
+
+// cartFam: the compositions of an ordered pair of different protocols.
+func cartFam[X0, X1 sigma.Statement, W0, W1 sigma.Witness, A0, A1 sigma.Statement, S0, S1 sigma.State, Z0, Z1 sigma.Response](
+	c0 *sigCase[X0, W0, A0, S0, Z0], c1 *sigCase[X1, W1, A1, S1, Z1],
+) []*niInst {
+	return []*niInst{cartOrCase(c0, c1, 0).ni(), cartOrCase(c0, c1, 1).ni(), cartAndCase(c0, c1).ni()}
+}
+
+func cartOf[X0, X1 sigma.Statement, W0, W1 sigma.Witness, A0, A1 sigma.Statement, S0, S1 sigma.State, Z0, Z1 sigma.Response](
+	c0 *sigCase[X0, W0, A0, S0, Z0], c1 *sigCase[X1, W1, A1, S1, Z1], comp string,
+) *niInst {
+	switch comp {
+	case "corL":
+		return cartOrCase(c0, c1, 0).ni()
+	case "corR":
+		return cartOrCase(c0, c1, 1).ni()
+	case "cand":
+		return cartAndCase(c0, c1).ni()
+	}
+	return nil
 }
